@@ -187,14 +187,34 @@ def job_heating(l):
         raise RuntimeError('calc_radial_tidal_heating could not be executed symbolically: %r' % ex)
     R = r[1]
     results = []
+
+    def real_heating(md, i, want_nonneg=False):
+        """replay on the real (numba) function: same inputs as the model, compare with the closed form"""
+        import math
+        f = lambda nm, d=1.0: float(md.get(nm, d))
+        ev, nv, av, Mv = f('e', 0.1), f('n', 1e-5), f('a', 1e9), f('Mh', 1e27)
+        rv = [f('r0', 1.0), f('r1', 2.0)]
+        Hv = [f('H0', 1.0), f('H1', 1.0)]
+        muv = [complex(f('mu0_r', 1.0), f('mu0_i', 0.5)), complex(f('mu1_r', 1.0), f('mu1_i', 0.5))]
+        out = replay.call1('TidalPy.tides.multilayer.heating', 'calc_radial_tidal_heating', ev, nv, av, Mv, replay.arr(rv), replay.arr(Hv), replay.arr(muv, 'complex128'), l)
+        if not out.get('ok'):
+            return False, 'real call failed: %s' % out.get('error')
+        Gv = 6.67430e-11
+        got = out['value'][i] * 4 * math.pi * rv[i] ** 2
+        want = 10.5 * Gv * Mv ** 2 * rv[1] ** 5 * nv * ev ** 2 / av ** 6 * (4 * math.pi * Gv / ((2 * l + 1) * rv[1]) * Hv[i] * muv[i].imag)
+        want = max(want, 0.0)
+        if want_nonneg:
+            return out['value'][i] < 0, 'real calc_radial_tidal_heating[%d] = %r' % (i, out['value'][i])
+        bad = abs(got - want) > 1e-6 * max(abs(got), abs(want), 1e-300)
+        return bad, 'real calc_radial_tidal_heating(e=%g, n=%g, a=%g, M=%g, r=%s, H=%s, mu=%s, l=%d)[%d]*4 pi r^2 = %r, closed form = %r (G = %g as in TidalPy.constants up to 1e-6)' % (ev, nv, av, Mv, rv, Hv, muv, l, i, got, want, Gv)
     for i in range(2):
         integrand = G * 4 * pi / (Q(2 * l + 1) * R) * H[i] * mu[i].imag          # d(-Im k)/dr
         classical = Fr(21, 2) * G * M * M * R ** 5 * n * e * e / a ** 6           # heating per unit (-Im k2)
         want_shell = classical * integrand                                            # heating per unit radius
         got_shell = Q.of(out[i]) * 4 * pi * r[i] * r[i]
         results.append(discharge(Obligation('l=%d slice %d: calc_radial_tidal_heating * 4 pi r^2 == (21/2) G M^2 R^5 n e^2/a^6 * [4 pi G/((2l+1)R) H_mu Im mu]' % (l, i),
-                                            eq_goal(got_shell, want_shell), pos, replay=lambda md: (True, 'radial heating prefactor differs'), key='heating:prefactor')))
-        results.append(discharge(Obligation('l=%d slice %d: radial heating >= 0' % (l, i), (Q.of(out[i]) >= 0).c, pos, replay=lambda md: (True, 'negative radial heating'), key='heating:nonneg')))
+                                            eq_goal(got_shell, want_shell), pos, replay=lambda md, i=i: real_heating(md, i), key='heating:prefactor')))
+        results.append(discharge(Obligation('l=%d slice %d: radial heating >= 0' % (l, i), (Q.of(out[i]) >= 0).c, pos, replay=lambda md, i=i: real_heating(md, i, True), key='heating:nonneg')))
     results.append(reach_twin('heating', pos))
     return {'results': results, 'encoded': loader.ENCODED, 'axioms': CTX.axiom_notes, 'label': 'radial heating l=%d' % l}
 
@@ -208,7 +228,8 @@ def main():
     jobs.append((job_stencils, {}))
     for l in ls:
         jobs.append((job_boundary, {'l': l}))
-    jobs.append((job_heating, {'l': 2}))
+    for l in ls:
+        jobs.append((job_heating, {'l': l}))       # every degree: a prefactor that is right only at l = 2 (e.g. l*l+1 for 2l+1) must be seen
     meta = {
         'explanation': 'The diffeq methods of odes.pyx (transliterated) and the real sensitivity_to_shear/_bulk kernels are executed on symbolic complex states; the kernels run on a 3-slice grid on which '
                        'y1 is linear with the ODE slope so every stencil returns the ODE value. z3 decides the exact local identity d/dr{r^2 Im[conj(y1)y2 + l(l+1)conj(y3)y4 + conj(y5)y6/(4 pi G)]} = '
